@@ -39,6 +39,7 @@ import (
 	"oras.land/oras-go/v2/content/memory"
 	"oras.land/oras-go/v2/content/oci"
 	"oras.land/oras-go/v2/errdef"
+	"oras.land/oras-go/v2/registry/remote"
 	"verifharness/common"
 )
 
@@ -720,6 +721,11 @@ func packCase(sp *spec) {
 		backed(*sp.Config)
 	}
 
+	if repo, ok := inner.(*remote.Repository); ok && allBacked(sp, false) {
+		// everything the caller refers to is in the registry: let it validate the manifest
+		repo.Client.(*fakeRegistry).validate = true
+		run.Count("registry_validating")
+	}
 	rec := &recorder{inner: inner, failAt: sp.FailAt}
 	var p content.Pusher = pusherOnly{rec}
 	if sp.Exists {
@@ -890,7 +896,7 @@ func packCase(sp *spec) {
 		}
 	}
 	// the result can be copied when everything the caller supplied is there
-	if allBacked(sp) {
+	if allBacked(sp, true) {
 		run.Count("copy_checked")
 		dst := memory.New()
 		if cerr := oras.CopyGraph(ctx, inner, dst, desc, oras.DefaultCopyGraphOptions); cerr != nil {
@@ -949,7 +955,7 @@ func packCase(sp *spec) {
 	}
 }
 
-func allBacked(sp *spec) bool {
+func allBacked(sp *spec, count bool) bool {
 	ok := func(d ocispec.Descriptor) bool { _, b := sp.Backed[string(d.Digest)]; return b }
 	if sp.Config != nil && isManifestType(sp.Config.MediaType) {
 		return false // a caller-supplied "config" that CopyGraph would walk as a manifest
@@ -957,7 +963,9 @@ func allBacked(sp *spec) bool {
 	if sp.Config == nil && (sp.Fn == "v10" || sp.Fn == "rc2") && isManifestType(sp.AT) {
 		// the caller asked for a config blob "{}" typed as a manifest: present, but every graph
 		// walk reads it as a manifest without config (caller inconsistency, not judged)
-		run.Count("copy_skipped_config_typed_as_manifest")
+		if count {
+			run.Count("copy_skipped_config_typed_as_manifest")
+		}
 		return false
 	}
 	for _, d := range sp.Layers {
